@@ -3,7 +3,7 @@
 set -e
 cd /verif
 . scripts/env.sh
-for f in vmc vcoop vmapiter vevents; do
+for f in vmc vcoop vmapiter vevents vc40; do
   scripts/build.sh $f
 done
 echo setup done
